@@ -92,6 +92,10 @@ def run_case(case, ctx):
         gbop = gen_prog.CPU_TABLE[gcpu][0]
         text = text.replace('\tend\n', '\tifdef\tTURBO\n\t%s\tREV,77\n\tendif\n\tend\n' % gbop)
         text = text.replace('konst\tequ\t', 'konst\tequ\tREV+')
+        # preprocessor definitions that change along the file (the table of #define's is per-pass state)
+        w1, w2 = rng.sample(range(1, 200), 2)
+        text = text.replace('\tend\n', '#define GWIDTH %d\n\t%s\tGWIDTH\n#undef GWIDTH\n#define GWIDTH %d\n\t%s\tGWIDTH,GWIDTH\n%s\tend\n' % (
+            w1, gbop, w2, gbop, '#undef GWIDTH\n' if rng.random() < 0.5 else ''))
         with open(os.path.join(src_dir, name + '.asm'), 'w', encoding='latin-1') as f:
             f.write(text)
         flags = ['-D', 'REV=%d' % rng.randrange(1, 9), '-D', 'TURBO']
@@ -119,7 +123,9 @@ def run_case(case, ctx):
     if b'\\{' in all_src:
         allopts = [o for o in allopts if o[0] not in ('-h', '-SPLITBYTE')]
     configs.append((allopts, rng.choice(LOCALES), 'none'))
-    for ci in range(case['k'] - 1):
+    # configuration 1: a listing with parts of it masked out (+t clears mask bits, -t sets them)
+    configs.append(([['-L'], ['+t', str(rng.choice([32, 63, 255, rng.randrange(1, 256), 1 << rng.randrange(8)]))]], None, 'none'))
+    for ci in range(case['k'] - 2):
         nopt = rng.choice([1, 2, 3, 4, 6])
         opts = rng.sample(REPORT_OPTS, nopt)
         if b'\\{' in all_src:
